@@ -13,10 +13,13 @@
    declared result list [rs], followed by the semantics of the template's
    method tail, for an arbitrary behaviour [decode] of encoding/json, an
    arbitrary status in Z, an arbitrary body, and an arbitrary failure.
-   Hypotheses:  wf_results rs  (identifiers of the type expressions are
-   non-empty: true of every parsed Go file)  and, for the arity statement,
-   single_names rs  (no result field declares two names, see
-   C10_refuted_K_rest_multi_name_result).
+   Hypothesis:  wf_results rs  (identifiers of the type expressions are
+   non-empty: true of every parsed Go file).  [rs] is the result list as
+   go/ast has it (a field may declare several names); cook.go judges it by its
+   list of values, [values rs]:  sig_accepted rs = accepted (values rs),
+   sig_result rs = declared_result (values rs).  The former guards
+   single_names / no_array_result are gone: both defects (K_rest_array_result,
+   K_rest_multi_name_result) were repaired in /repo (9fecf90, 5bf1aba).
 
    This file contains only statements closed by [exact] of a lemma from
    Proofs/, each followed by Print Assumptions. *)
@@ -35,30 +38,30 @@ Local Open Scope Z_scope.
 Theorem C10_method_exists_iff_signature_accepted :
   forall V X (decode : string -> body X -> dec_out V X) bv rs o,
   wf_results rs = true -> scenario_ok bv o = true ->
-  ((exists res, method_returns decode bv rs o = inr (Some res)) <-> accepted rs).
-Proof. exact mr_exists_iff. Qed.
+  ((exists res, method_returns decode bv rs o = inr (Some res)) <-> sig_accepted rs).
+Proof. exact sg_exists_iff. Qed.
 Print Assumptions C10_method_exists_iff_signature_accepted.
 
 Theorem C10_rejected_signature_is_fatal :
   forall V X (decode : string -> body X -> dec_out V X) bv rs o,
-  ~ accepted rs -> exists f, method_returns decode bv rs o = inl f.
-Proof. exact mr_rejected. Qed.
+  ~ sig_accepted rs -> exists f, method_returns decode bv rs o = inl f.
+Proof. exact sg_rejected. Qed.
 Print Assumptions C10_rejected_signature_is_fatal.
 
 (* the only scenario without an answer: json.Marshal failing in a method that sends no body *)
 Theorem C10_marshal_failure_needs_a_body_verb :
   forall V X (decode : string -> body X -> dec_out V X) rs x,
-  wf_results rs = true -> accepted rs ->
+  wf_results rs = true -> sig_accepted rs ->
   method_returns decode false rs (OFail StMarshal x) = inr None.
-Proof. exact mr_impossible_scenario. Qed.
+Proof. exact sg_impossible_scenario. Qed.
 Print Assumptions C10_marshal_failure_needs_a_body_verb.
 
 (* what the template receives is the signature-level description of the result *)
 Theorem C10_cook_results_characterised : forall rs c,
   cook_results rs = inr c <->
-  accepted rs /\ ck_nils c = (List.length rs - 1)%nat /\
-  ck_result c = match declared_result rs with Some rr => rr | None => ("", false) end.
-Proof. exact cook_results_accepts. Qed.
+  sig_accepted rs /\ ck_nils c = (declared_arity rs - 1)%nat /\
+  ck_result c = match sig_result rs with Some rr => rr | None => ("", false) end.
+Proof. exact sg_cook_results. Qed.
 Print Assumptions C10_cook_results_characterised.
 
 (* ---- the whole behaviour in one equation: the literal pipeline equals the
@@ -66,9 +69,10 @@ Print Assumptions C10_cook_results_characterised.
    result read off the signature) ---- *)
 Theorem C10_method_refines_spec :
   forall V X (decode : string -> body X -> dec_out V X) bv rs o,
-  wf_results rs = true -> accepted rs -> scenario_ok bv o = true ->
-  method_returns decode bv rs o = inr (Some (spec_returns V X decode rs o, spec_events X rs o)).
-Proof. exact method_returns_refines_spec. Qed.
+  wf_results rs = true -> sig_accepted rs -> scenario_ok bv o = true ->
+  method_returns decode bv rs o
+  = inr (Some (spec_returns V X decode (values rs) o, spec_events X (values rs) o)).
+Proof. exact sg_refines_spec. Qed.
 Print Assumptions C10_method_refines_spec.
 
 (* the returned tuple reads as (result?, response, error); a result position
@@ -76,8 +80,8 @@ Print Assumptions C10_method_refines_spec.
 Theorem C10_return_shape :
   forall V X (decode : string -> body X -> dec_out V X) bv rs o slots ev,
   wf_results rs = true -> method_returns decode bv rs o = inr (Some (slots, ev)) ->
-  exists rv, view slots = Some rv /\ (rv_result rv = None <-> declared_result rs = None).
-Proof. exact mr_view. Qed.
+  exists rv, view slots = Some rv /\ (rv_result rv = None <-> sig_result rs = None).
+Proof. exact sg_view. Qed.
 Print Assumptions C10_return_shape.
 
 (* ---- nil error exactly for 2xx whose body decodes ---- *)
@@ -86,12 +90,12 @@ Theorem C10_nil_error_iff_2xx_and_body_decodes :
   wf_results rs = true -> method_returns decode bv rs o = inr (Some (slots, ev)) -> view slots = Some rv ->
   (rv_err rv = SNil <->
    exists r, o = OResp r /\ 200 <= r_status r < 300 /\
-     match declared_result rs with
+     match sig_result rs with
      | None => True                                  (* no result: nothing to decode *)
      | Some (ty, _) => forall x, snd (decode ty (r_body r)) <> Some (DOther x)
                                                      (* Decode returned nil or io.EOF *)
      end).
-Proof. exact mr_nil_error_iff. Qed.
+Proof. exact sg_nil_error_iff. Qed.
 Print Assumptions C10_nil_error_iff_2xx_and_body_decodes.
 
 (* 2xx, body decoded: the decoded value is the result (its address when the
@@ -99,18 +103,18 @@ Print Assumptions C10_nil_error_iff_2xx_and_body_decodes.
 Theorem C10_2xx_returns_decoded_value :
   forall V X (decode : string -> body X -> dec_out V X) bv rs r ty p v de slots ev,
   wf_results rs = true -> method_returns decode bv rs (OResp r) = inr (Some (slots, ev)) ->
-  200 <= r_status r < 300 -> declared_result rs = Some (ty, p) ->
+  200 <= r_status r < 300 -> sig_result rs = Some (ty, p) ->
   decode ty (r_body r) = (v, de) -> (forall x, de <> Some (DOther x)) ->
   slots = [if p then SAddr v else SVal v; SResp r; SNil].
-Proof. exact mr_success. Qed.
+Proof. exact sg_success. Qed.
 Print Assumptions C10_2xx_returns_decoded_value.
 
 Theorem C10_2xx_without_result :
   forall V X (decode : string -> body X -> dec_out V X) bv rs r slots ev,
   wf_results rs = true -> method_returns decode bv rs (OResp r) = inr (Some (slots, ev)) ->
-  200 <= r_status r < 300 -> declared_result rs = None ->
+  200 <= r_status r < 300 -> sig_result rs = None ->
   slots = [SResp r; SNil].
-Proof. exact mr_success_no_result. Qed.
+Proof. exact sg_success_no_result. Qed.
 Print Assumptions C10_2xx_without_result.
 
 (* an empty body gives the zero value (given that encoding/json answers an
@@ -120,20 +124,20 @@ Theorem C10_empty_body_gives_zero_value :
   forall V X (decode : string -> body X -> dec_out V X) (zero : string -> V) bv rs r ty p slots ev,
   (forall t, decode t {| b_data := ""; b_fault := None |} = (zero t, Some DEof)) ->
   wf_results rs = true -> method_returns decode bv rs (OResp r) = inr (Some (slots, ev)) ->
-  200 <= r_status r < 300 -> declared_result rs = Some (ty, p) ->
+  200 <= r_status r < 300 -> sig_result rs = Some (ty, p) ->
   r_body r = {| b_data := ""; b_fault := None |} ->
   slots = [if p then SAddr (zero ty) else SVal (zero ty); SResp r; SNil].
-Proof. exact mr_empty_body. Qed.
+Proof. exact sg_empty_body. Qed.
 Print Assumptions C10_empty_body_gives_zero_value.
 
 (* 2xx whose body does not decode: json's error unchanged, nil result, the response *)
 Theorem C10_2xx_decode_error :
   forall V X (decode : string -> body X -> dec_out V X) bv rs r ty p v x slots ev,
   wf_results rs = true -> method_returns decode bv rs (OResp r) = inr (Some (slots, ev)) ->
-  200 <= r_status r < 300 -> declared_result rs = Some (ty, p) ->
+  200 <= r_status r < 300 -> sig_result rs = Some (ty, p) ->
   decode ty (r_body r) = (v, Some (DOther x)) ->
   slots = [SNil; SResp r; SErr (EForeign x)].
-Proof. exact mr_decode_error. Qed.
+Proof. exact sg_decode_error. Qed.
 Print Assumptions C10_2xx_decode_error.
 
 (* ---- the three error classes, for EVERY status in Z ---- *)
@@ -143,7 +147,7 @@ Theorem C10_4xx_client_error :
   400 <= r_status r < 500 ->
   rv_err rv = SErr (EText ("client error " ++ dec (r_status r) ++ ": " ++ b_data (r_body r))) /\
   rv_resp rv = SResp r /\ (rv_result rv = None \/ rv_result rv = Some SNil).
-Proof. exact mr_client_error. Qed.
+Proof. exact sg_client_error. Qed.
 Print Assumptions C10_4xx_client_error.
 
 Theorem C10_5xx_server_error :
@@ -152,7 +156,7 @@ Theorem C10_5xx_server_error :
   500 <= r_status r ->
   rv_err rv = SErr (EText ("server error " ++ dec (r_status r) ++ ": " ++ b_data (r_body r))) /\
   rv_resp rv = SResp r /\ (rv_result rv = None \/ rv_result rv = Some SNil).
-Proof. exact mr_server_error. Qed.
+Proof. exact sg_server_error. Qed.
 Print Assumptions C10_5xx_server_error.
 
 Theorem C10_other_status_not_supported :
@@ -161,7 +165,7 @@ Theorem C10_other_status_not_supported :
   r_status r < 200 \/ 300 <= r_status r < 400 ->
   rv_err rv = SErr (EText ("not supported error " ++ dec (r_status r))) /\
   rv_resp rv = SResp r /\ (rv_result rv = None \/ rv_result rv = Some SNil).
-Proof. exact mr_unsupported. Qed.
+Proof. exact sg_unsupported. Qed.
 Print Assumptions C10_other_status_not_supported.
 
 (* the four classes cover Z and are pairwise disjoint *)
@@ -195,10 +199,10 @@ Print Assumptions C10_dec_roundtrip.
 Theorem C10_failure_returned_unchanged :
   forall V X (decode : string -> body X -> dec_out V X) bv rs st x slots ev,
   wf_results rs = true -> method_returns decode bv rs (OFail st x) = inr (Some (slots, ev)) ->
-  slots = (repeat SNil (List.length rs - 1) ++ [SErr (EForeign x)])%list /\ ev = [] /\
+  slots = (repeat SNil (declared_arity rs - 1) ++ [SErr (EForeign x)])%list /\ ev = [] /\
   forall rv, view slots = Some rv ->
     rv_err rv = SErr (EForeign x) /\ rv_resp rv = SNil /\ (rv_result rv = None \/ rv_result rv = Some SNil).
-Proof. exact mr_failure. Qed.
+Proof. exact sg_failure. Qed.
 Print Assumptions C10_failure_returned_unchanged.
 
 (* ---- whenever a response was received it is returned (error or not) ---- *)
@@ -206,7 +210,7 @@ Theorem C10_response_always_returned :
   forall V X (decode : string -> body X -> dec_out V X) bv rs r slots ev rv,
   wf_results rs = true -> method_returns decode bv rs (OResp r) = inr (Some (slots, ev)) -> view slots = Some rv ->
   rv_resp rv = SResp r.
-Proof. exact mr_response_always. Qed.
+Proof. exact sg_response_always. Qed.
 Print Assumptions C10_response_always_returned.
 
 (* ---- the result is nil on EVERY error path ---- *)
@@ -214,40 +218,47 @@ Theorem C10_result_nil_on_every_error_path :
   forall V X (decode : string -> body X -> dec_out V X) bv rs o slots ev rv,
   wf_results rs = true -> method_returns decode bv rs o = inr (Some (slots, ev)) -> view slots = Some rv ->
   rv_err rv <> SNil -> rv_result rv = None \/ rv_result rv = Some SNil.
-Proof. exact mr_error_nil_result. Qed.
+Proof. exact sg_error_nil_result. Qed.
 Print Assumptions C10_result_nil_on_every_error_path.
 
 (* ---- arity (cook.go: ErrReturnMap) and nil-ability of the result type ---- *)
 Theorem C10_returns_declared_number_of_values :
   forall V X (decode : string -> body X -> dec_out V X) bv rs o slots ev,
-  wf_results rs = true -> single_names rs = true ->
+  wf_results rs = true ->
   method_returns decode bv rs o = inr (Some (slots, ev)) ->
   List.length slots = declared_arity rs.
-Proof. exact mr_arity. Qed.
+Proof. exact sg_arity. Qed.
 Print Assumptions C10_returns_declared_number_of_values.
 
 Theorem C10_nil_is_a_value_of_the_result_type : forall rs,
-  accepted rs -> no_array_result rs = true -> result_type_nilable rs = true.
-Proof. exact accepted_nilable. Qed.
+  sig_accepted rs -> result_type_nilable (values rs) = true.
+Proof. exact sg_nilable. Qed.
 Print Assumptions C10_nil_is_a_value_of_the_result_type.
 
-(* open finding K_rest_array_result: an array result [n]T is accepted although
-   the `nil` of the error exits is not a value of it (the client does not compile) *)
-Theorem C10_refuted_K_rest_array_result :
-  exists rs c, wf_results rs = true /\ single_names rs = true /\ cook_results rs = inr c /\
-               result_type_nilable rs = false.
-Proof. exact array_result_refuted. Qed.
-Print Assumptions C10_refuted_K_rest_array_result.
+(* K_rest_array_result (fixed in 9fecf90): an array result [n]T is refused with
+   its own diagnostic; nil, returned by every error exit, is not a value of it *)
+Theorem C10_array_result_is_refused : forall r a b,
+  print (f_type a) = "*http.Response" -> print (f_type b) = "error" -> f_names r = [] ->
+  is_array (f_type r) = true ->
+  cook_values [r; a; b] = inl (FArray (print (f_type r))).
+Proof. exact cook_values_array. Qed.
+Print Assumptions C10_array_result_is_refused.
 
-(* open finding K_rest_multi_name_result: `(a, b *http.Response, err error)` is
-   two fields but three values; the generator counts fields *)
-Theorem C10_refuted_K_rest_multi_name_result :
-  forall V X (decode : string -> body X -> dec_out V X) bv o,
-  scenario_ok bv o = true ->
-  exists rs slots ev, wf_results rs = true /\ method_returns decode bv rs o = inr (Some (slots, ev)) /\
-                      List.length slots <> declared_arity rs.
-Proof. exact multi_name_refuted. Qed.
-Print Assumptions C10_refuted_K_rest_multi_name_result.
+(* K_rest_multi_name_result (fixed in 5bf1aba): a result list is judged by its
+   VALUES; `a, b T` counts twice, and no list with such a field is accepted *)
+Theorem C10_arity_counts_values : forall rs, declared_arity rs = List.length (values rs).
+Proof. exact declared_arity_values. Qed.
+Print Assumptions C10_arity_counts_values.
+
+Theorem C10_multi_name_results_never_accepted : forall rs,
+  single_names rs = false -> ~ sig_accepted rs.
+Proof. exact multi_name_never_accepted. Qed.
+Print Assumptions C10_multi_name_results_never_accepted.
+
+(* without multi-name fields the value list is the result list itself *)
+Theorem C10_values_of_single_name_list : forall rs, single_names rs = true -> values rs = rs.
+Proof. exact values_single. Qed.
+Print Assumptions C10_values_of_single_name_list.
 
 (* ---- the response body is closed exactly once, last, on every path that
    received a response (defer resp_.Body.Close()); not part of the property
@@ -256,13 +267,13 @@ Theorem C10_body_closed_exactly_once :
   forall V X (decode : string -> body X -> dec_out V X) bv rs r slots ev,
   wf_results rs = true -> method_returns decode bv rs (OResp r) = inr (Some (slots, ev)) ->
   exists pre, ev = (pre ++ [BClose])%list /\ ~ In BClose pre.
-Proof. exact mr_body_closed_once. Qed.
+Proof. exact sg_body_closed_once. Qed.
 Print Assumptions C10_body_closed_exactly_once.
 
 (* ---- the oracle of the correspondence: the boolean property [Pb], evaluated
    on what the implementation did, is satisfied by the model on every case ---- *)
 Theorem C10_model_satisfies_boolean_property : forall c o,
-  wf_results (c_results c) = true -> single_names (c_results c) = true ->
+  wf_results (c_results c) = true ->
   law_ok c = true -> model_obs c = Some o -> Pb (with_obs c o) = true.
 Proof. exact model_satisfies_Pb. Qed.
 Print Assumptions C10_model_satisfies_boolean_property.
@@ -272,7 +283,7 @@ Print Assumptions C10_model_satisfies_boolean_property.
    the declared signature, the scenario and the measured json behaviour alone;
    the model's observation is that expected one on every case ... *)
 Theorem C10_model_observation_is_expected : forall c m,
-  wf_results (c_results c) = true -> single_names (c_results c) = true ->
+  wf_results (c_results c) = true ->
   law_ok c = true -> model_obs c = Some m -> pobs_of m = expected c.
 Proof. exact model_obs_is_expected. Qed.
 Print Assumptions C10_model_observation_is_expected.
@@ -281,7 +292,7 @@ Print Assumptions C10_model_observation_is_expected.
    it agrees with the model on these observables (a "differs but the property
    holds" verdict can only come from the body events read / Close) *)
 Theorem C10_boolean_property_iff_agreement_with_model : forall c m,
-  wf_results (c_results c) = true -> single_names (c_results c) = true ->
+  wf_results (c_results c) = true ->
   law_ok c = true -> model_obs c = Some m ->
   (Pb c = true <-> pobs_of (c_obs c) = pobs_of m).
 Proof. exact Pb_iff_agrees_with_model. Qed.
@@ -300,7 +311,7 @@ Definition ex_none : list field :=
   [{| f_names := ["resp"]; f_type := TStar (TSel "http" "Response") |}; {| f_names := ["err"]; f_type := TIdent "error" |}].
 
 Example C10_example_signatures_accepted :
-  accepted ex_ptr /\ accepted ex_slice /\ accepted ex_map /\ accepted ex_none /\
+  sig_accepted ex_ptr /\ sig_accepted ex_slice /\ sig_accepted ex_map /\ sig_accepted ex_none /\
   wf_results ex_ptr = true /\ single_names ex_none = true /\
   declared_result ex_ptr = Some ("User", true) /\ declared_result ex_slice = Some ("[]User", false) /\
   declared_result ex_map = Some ("map[string]int", false) /\ declared_result ex_none = None.
@@ -360,6 +371,18 @@ Definition ex_case : case :=
      c_obs := {| ob_nout := 3; ob_res := Some ONil; ob_resp := RSame; ob_err := EMsg "client error 404: gone";
                  ob_read := true; ob_closed := 1 |} |}.
 Example C10_example_case :
-  wf_results (c_results ex_case) = true /\ single_names (c_results ex_case) = true /\ law_ok ex_case = true /\
+  wf_results (c_results ex_case) = true /\ law_ok ex_case = true /\
   model_obs ex_case = Some (c_obs ex_case) /\ Pb ex_case = true /\ verdict ex_case = 0%N.
 Proof. repeat split; vm_compute; reflexivity. Qed.
+
+(* the witnesses of the two repaired defects, as the current code treats them *)
+Example C10_example_repaired_witnesses :
+  cook_results array_witness = inl (FArray "[2]int") /\
+  single_names multi_name_witness = false /\ declared_arity multi_name_witness = 3%nat /\
+  cook_results multi_name_witness = inl FNamed /\
+  cook_results [{| f_names := ["a"; "b"]; f_type := TStar (TSel "http" "Response") |}] = inl FNotError /\
+  cook_results [{| f_names := ["r"]; f_type := TStar (TSel "http" "Response") |};
+                {| f_names := ["e1"; "e2"]; f_type := TIdent "error" |}] = inl FNotResponse /\
+  (* a pointer to an array is still a fine result *)
+  sig_accepted [{| f_names := []; f_type := TStar (TArray (Some "2") (TIdent "int")) |}; resp_field; err_field].
+Proof. repeat split; reflexivity. Qed.
